@@ -300,6 +300,8 @@ pub fn with_contexts<R>(cfgs: &[CtxCfg], f: impl FnOnce(&mut [MCTPSMBusContext])
 pub struct Disc {
     pub cat: &'static str,
     pub detail: String,
+    /// command code of the request the discrepancy is about (None for state discrepancies)
+    pub cmd: Option<u8>,
 }
 
 /// Compare what the context did with what the model expects. `m` is the model *after* the step.
@@ -307,6 +309,7 @@ pub fn judge(exp: Option<&Expect>, obs: &Obs, m: &Model) -> Vec<Disc> {
     let mut v = Vec::new();
     if obs.eids != (m.req_eid, m.resp_eid) {
         v.push(Disc {
+            cmd: None,
             cat: "eid-cells",
             detail: format!("accessors report (request half {:#04x}, response half {:#04x}), model says ({:#04x}, {:#04x})", obs.eids.0, obs.eids.1, m.req_eid, m.resp_eid),
         });
@@ -315,27 +318,27 @@ pub fn judge(exp: Option<&Expect>, obs: &Obs, m: &Model) -> Vec<Disc> {
         None | Some(Expect::Unspecified) => {}
         Some(Expect::Silent) => {
             if let Some(r) = &obs.resp {
-                v.push(Disc { cat: "unexpected-response", detail: format!("a {}-byte response {} was produced for an input that is not an accepted control request", r.len(), hex(r)) });
+                v.push(Disc { cmd: None, cat: "unexpected-response", detail: format!("a {}-byte response {} was produced for an input that is not an accepted control request", r.len(), hex(r)) });
             } else if !obs.rb_clean {
-                v.push(Disc { cat: "buffer-touched", detail: "response buffer changed although no response was reported".into() });
+                v.push(Disc { cmd: None, cat: "buffer-touched", detail: "response buffer changed although no response was reported".into() });
             }
         }
         Some(Expect::Respond { cmd, data, what, exact }) => match &obs.resp {
-            None => v.push(Disc { cat: "no-response", detail: format!("no response to an accepted request with command {:#04x} ({}); result {}", cmd, what, obs.proc.as_ref().map(|p| p.brief()).unwrap_or_default()) }),
+            None => v.push(Disc { cmd: Some(*cmd), cat: "no-response", detail: format!("no response to an accepted request with command {:#04x} ({}); result {}", cmd, what, obs.proc.as_ref().map(|p| p.brief()).unwrap_or_default()) }),
             Some(r) => match view(r) {
-                None => v.push(Disc { cat: "malformed-response", detail: format!("response {} is not a control message of at least 13 bytes", hex(r)) }),
+                None => v.push(Disc { cmd: Some(*cmd), cat: "malformed-response", detail: format!("response {} is not a control message of at least 13 bytes", hex(r)) }),
                 Some(vw) => {
-                    if !vw.pec_ok || !vw.count_ok {
-                        v.push(Disc { cat: "malformed-response", detail: format!("response {} has a wrong PEC or byte count", hex(r)) });
-                    } else if vw.cmd != *cmd {
-                        v.push(Disc { cat: "wrong-command", detail: format!("response {} carries command {:#04x}, request had {:#04x}", hex(r), vw.cmd, cmd) });
+                    // PEC and byte count of responses are C12's / C03's / C04's business, not the
+                    // content monitors'; they are deliberately not judged here
+                    if vw.cmd != *cmd {
+                        v.push(Disc { cmd: Some(*cmd), cat: "wrong-command", detail: format!("response {} carries command {:#04x}, request had {:#04x}", hex(r), vw.cmd, cmd) });
                     } else if !pattern_matches(vw.data, data, *exact) {
-                        v.push(Disc { cat: what, detail: format!("response data (completion code onwards) {} does not match {}{}", hex(vw.data), pattern_str(data), if *exact { " (exact length)" } else { "" }) });
+                        v.push(Disc { cmd: Some(*cmd), cat: what, detail: format!("response data (completion code onwards) {} does not match {}{}", hex(vw.data), pattern_str(data), if *exact { " (exact length)" } else { "" }) });
                     } else if *what == "set-eid-accepted" && (vw.data[1] >> 4) & 3 != 0 {
-                        v.push(Disc { cat: what, detail: format!("assignment status bits 5:4 of {:#04x} are not 'accepted'", vw.data[1]) });
+                        v.push(Disc { cmd: Some(*cmd), cat: what, detail: format!("assignment status bits 5:4 of {:#04x} are not 'accepted'", vw.data[1]) });
                     }
                     if !obs.rb_clean {
-                        v.push(Disc { cat: "buffer-touched", detail: "bytes beyond the reported response length changed".into() });
+                        v.push(Disc { cmd: Some(*cmd), cat: "buffer-touched", detail: "bytes beyond the reported response length changed".into() });
                     }
                 }
             },
